@@ -266,7 +266,7 @@ static cx_model line_wild[MAXLINES];   /* only the wild list is used */
 
 static const char FILLER[] = "}) tail'\" \\n $A ${FOO} %version() `x` ~ ) } ";
 static char fillbuf[CONFIG_BUFF];
-static int subsys_live;
+static int subsys_live, tmp_dirty;
 
 static void check_tables(const char *when)
 {
@@ -378,11 +378,16 @@ int main(int argc, char **argv)
     memset(longname_set, 'L', 126); longname_set[126] = 0;
     memset(longname_unset, 'M', 126); longname_unset[126] = 0;
     cx_env_on = 1;
+    /* fixtures for %dirscan and TMPDIR for (never executed) %exec: constant content, created once per process */
+    mkdir("d1", 0700); cx_write_file("d1/onlyfile", "x", 1); mkdir("d1/subdir", 0700);
+    mkdir("dmany", 0700); cx_write_file("dmany/aa", "1", 1); cx_write_file("dmany/bb", "2", 1); cx_write_file("dmany/c-c", "", 0); mkdir("dmany/sub", 0700);
+    mkdir("dempty", 0700); mkdir("dempty/sub", 0700);
+    mkdir("tmp", 0700);
     for (size_t k = 0; k < sizeof fillbuf; k++) fillbuf[k] = FILLER[k % (sizeof FILLER - 1)];
 
     while (vh_next_case()) {
         if (VH_CASE_TRY()) {
-            cx_scratch_clean();
+            if (tmp_dirty) { cx_rm_contents("tmp", 0); tmp_dirty = 0; }      /* files left by the previous case's exec */
             cx_spawns = 0;
             /* ---- environment */
             cx_env_clear();
@@ -393,7 +398,6 @@ int main(int argc, char **argv)
             cx_env_set("EMPTY", "");
             cx_env_set(longname_set, gen_simple_value());
             cx_env_set("TMPDIR", "tmp");
-            mkdir("tmp", 0700);
             /* ---- built-in table: 0,1,2 customs (no growth), 3..12 (one growth), 13..40 (two or three) */
             { int r = (int) vh_below(100); n_custom = r < 15 ? (int) vh_below(3) : r < 75 ? (int) vh_range(3, 12) : (int) vh_range(13, CX_NCUSTOM); }
             has_dir_one = has_dir_many = has_dir_empty = 0;
@@ -409,9 +413,6 @@ int main(int argc, char **argv)
                 if (shape == 2) longs++;
                 gen_line(&lines[i], shape);
             }
-            mkdir("d1", 0700); cx_write_file("d1/onlyfile", "x", 1); mkdir("d1/subdir", 0700);
-            mkdir("dmany", 0700); cx_write_file("dmany/aa", "1", 1); cx_write_file("dmany/bb", "2", 1); cx_write_file("dmany/c-c", "", 0); mkdir("dmany/sub", 0700);
-            mkdir("dempty", 0700); mkdir("dempty/sub", 0700);
 
             /* ---- model dry run to decide placement (store evolves, so run the model over the whole history first) */
             {
@@ -467,6 +468,7 @@ int main(int argc, char **argv)
                 if (cx_spawns) vh_fail("spawn", "%ld spawn attempt(s) for text with neither backquote nor %%exec: %s", cx_spawns, cx_last_cmd);
                 vh_count("no_spawn_checked", 1);
             } else if (cx_spawns) vh_count("spawn_monitor_hits", cx_spawns);
+            if (any_exec) tmp_dirty = 1;
             vh_digest(dg);
             if (n_custom >= 3) vh_count("builtin_table_grown", 1);
             vh_count("lines", nlines);
@@ -476,6 +478,7 @@ int main(int argc, char **argv)
                cannot leak into the next case */
             if (subsys_live) { subsys_live = 0; spifconf_free_subsystem(); }
             free_case();
+            tmp_dirty = 1;
         }
         vh_case_done();
     }
